@@ -215,6 +215,8 @@ type Family struct {
 	Run   func(c *Case)
 	// Serial families run on one goroutine (they use global resources such as ports or sleeps).
 	Serial bool
+	// MaxPar bounds the number of cases of this family running at once (0 = one per CPU).
+	MaxPar int
 }
 
 type Case struct {
@@ -352,6 +354,9 @@ func (x *Ctx) runFamilies(only string, onlySeed uint64, replay bool) {
 		w := workers
 		if f.Serial {
 			w = 1
+		}
+		if f.MaxPar > 0 && w > f.MaxPar {
+			w = f.MaxPar
 		}
 		var wg sync.WaitGroup
 		var next int64 = -1
